@@ -9,7 +9,7 @@
    id, fitness values) of every object that existed.  check re-runs the model and compares.
    Numbers are binary64 floats (bit exact); genotypes and fitness values are integer lists. *)
 From Coq Require Import List ZArith Bool Arith PrimFloat.
-From DV Require Export Base.Corr Model.C02_Variation.
+From DV Require Export Base.Corr Model.C02_Variation Model.C02_Literal.
 Import ListNotations.
 
 Definition G := list Z.
@@ -125,12 +125,18 @@ Definition judge (r : st G F float * (exn + list nat)) (o_res : ores) (o_log : l
   res_eqb res o_res && list_eqb event_eqb (rev (lg s')) o_log && snap_eqb (snapshot (hp s')) o_snap
   && match dr s' with [] => true | _ => false end.   (* the model consumed exactly the recorded draws *)
 
+(* both the structurally recursive model (the one the theorems are stated for) and the index-based
+   transcription (proved equal in Proofs/C02_Literal.v) are run against the implementation *)
 Definition check (c : case) : bool :=
   match c with
   | CAnd objs fits pop cxpb mutpb draws mks uks o_res o_log o_snap =>
-      judge (var_and PrimFloat.ltb (mate_of mks) (mut_of uks) cxpb mutpb
-                     (start (build_heap objs fits) draws) pop) o_res o_log o_snap
+      let s0 := start (build_heap objs fits) draws in
+      judge (var_and PrimFloat.ltb (mate_of mks) (mut_of uks) cxpb mutpb s0 pop) o_res o_log o_snap &&
+      judge (var_and_lit PrimFloat.ltb (mate_of mks) (mut_of uks) cxpb mutpb s0 pop) o_res o_log o_snap
   | COr objs fits pop lambda_ cxpb mutpb draws mks uks o_res o_log o_snap =>
+      let s0 := start (build_heap objs fits) draws in
       judge (var_or PrimFloat.ltb PrimFloat.leb PrimFloat.add 1%float (mate_of mks) (mut_of uks)
-                    lambda_ cxpb mutpb (start (build_heap objs fits) draws) pop) o_res o_log o_snap
+                    lambda_ cxpb mutpb s0 pop) o_res o_log o_snap &&
+      judge (var_or_lit PrimFloat.ltb PrimFloat.leb PrimFloat.add 1%float (mate_of mks) (mut_of uks)
+                        lambda_ cxpb mutpb s0 pop) o_res o_log o_snap
   end.
